@@ -12,7 +12,7 @@ META = {
     'title': 'The validator always produces a report and each check is exact',
     'technique': 'model-typed subscript safety + membership-dominance for data-dependent keys; registry vs documented table; literal folding of the relation tables; effect summaries of the reference / blank checks',
     'explanation': (
-        'Exactness of each of the eighteen predicates is value-level and not decided. Decided: R1 totality - in wn/validate.py no '
+        'Exactness of each of the eighteen predicates against their informal description is value-level; R7 decides agreement with a reviewed reference. Decided: R1 totality - in wn/validate.py no '
         'function reachable from validate() can raise KeyError/TypeError on a loadable lexicon: (S1) x[k] on a model-typed value '
         'only for keys the model requires, (S2) a subscript with a data-dependent key on a locally built or constant mapping is '
         'dominated by a membership test on the same key, (S3) the result of .get(k) without default is never used as receiver or '
@@ -21,10 +21,13 @@ META = {
         'keeps a check iff its code or category letter is selected, and the report is built by one loop over the selected checks; '
         'R3 REVERSE_RELATIONS is an involution inside the relation inventories and each inventory is closed under it; R4 the four '
         'reference columns behind E204/E401 are NOT NULL and filled by a bare id->rowid sub-select in a plain INSERT, and the '
-        'sense-relation splitter raises for unknown targets, so add() rejects what these checks report.'),
+        'sense-relation splitter raises for unknown targets, so add() rejects what these checks report; R7 for every check '
+        'registered in _codes and the helpers they share, the effects that decide the reported item set (stores into the result with '
+        'their conditions and loops, auxiliary collections with their initial values, returns) equal the reference table '
+        'wnstatic/rules/c18_checks.py, which was confirmed by reading each predicate against the check\'s description.'),
     'decides': ['validator cannot raise KeyError / None errors', 'registry = documented table', 'reverse-relation involution',
                 'NOT NULL reference columns => add rejects'],
-    'not_decided': ['exactness (no misses / no spurious items) of each check predicate'],
+    'not_decided': ['that the reviewed reference predicates themselves match the informal descriptions (confirmed by reading, not by analysis)'],
     'assumptions': ['load() guarantees the required keys of the model (C20-R3)'],
 }
 
@@ -413,6 +416,69 @@ def r6_blank_predicates(ctx, res):
             res.find(key, f.module.loc(f.node), f'{code} no longer ranges over every item of `{lst}` of every synset of the lexicon')
 
 
+# ---------------------------------------------------------------------------
+# R7: the set of items each check reports
+
+CHECK_HELPERS = ['_multiples', '_sense_relations', '_synset_relations', '_get_dc_type']
+
+
+def check_functions(ctx):
+    """names of the functions registered in _codes (in registry order) followed by the shared helpers"""
+    val = ctx.repo.mod('validate')
+    names = []
+    for node in val.tree.body:
+        tgt = node.targets[0] if isinstance(node, ast.Assign) else getattr(node, 'target', None)
+        if isinstance(node, (ast.Assign, ast.AnnAssign)) and isinstance(tgt, ast.Name) and tgt.id == '_codes' and isinstance(node.value, ast.Dict):
+            for v in node.value.values:
+                if isinstance(v, ast.Name) and v.id not in names:
+                    names.append(v.id)
+    if len(names) < 15:
+        raise AnalysisError(f'only {len(names)} check functions found in validate._codes')
+    return names + [h for h in CHECK_HELPERS if h in val.funcs]
+
+
+def decisive_rows(ctx, name):
+    """the effects that decide which items a check reports: (kind, text, sorted guards, loops)"""
+    from ..speccheck import view
+    v = view(ctx, 'validate', name)
+    out = []
+    for k, t, g, c, e in v.rows:
+        if k in ('store', 'aug', 'return', 'yield', 'yield-from', 'raise', 'del') or (k == 'call' and t.startswith('#')):
+            out.append((k, t, tuple(sorted(g)), tuple(c)))
+        elif k == 'new':
+            # the initial value of a collection / record is part of what is reported
+            out.append((k, e.text, tuple(sorted(g)), tuple(c)))
+    return sorted(out)
+
+
+def r7_check_predicates(ctx, res):
+    """each check reports exactly the items its description names: the effects that decide the reported set (stores into the
+    result with their conditions and loops, auxiliary collections, returns) equal the reviewed reference table."""
+    from .c18_checks import PREDICATES
+    from ..speccheck import view
+    names = check_functions(ctx)
+    for name in names:
+        key = f'predicate:{name}'
+        v = view(ctx, 'validate', name)
+        want = PREDICATES.get(name)
+        res.inst(key, v.loc(), f'{len(want) if want is not None else 0} decisive effects')
+        if want is None:
+            res.find(key, v.loc(), f'check function {name} is registered in _codes but has no reviewed predicate (tools/gen_c18_checks.py)')
+            continue
+        got = decisive_rows(ctx, name)
+        want = sorted(tuple(r) for r in want)
+        if got != want:
+            extra = [r for r in got if r not in want]
+            missing = [r for r in want if r not in got]
+            fmt = lambda r: f'{r[0]} {r[1][:100]}' + (f' when {list(r[2])}' if r[2] else '') + (f' in {list(r[3])}' if r[3] else '')   # noqa: E731
+            res.find(key, v.loc(), f'{name} no longer reports exactly the reviewed item set: '
+                                   + (f'now `{fmt(extra[0])}`' if extra else 'an effect was removed')
+                                   + (f'; reviewed `{fmt(missing[0])}`' if missing else ''))
+    for name in PREDICATES:
+        if name not in names:
+            raise AnalysisError(f'anchor vanished: reviewed check {name} is no longer registered in validate._codes')
+
+
 RULES = [
     ('C18-R1', r1_totality, 70),
     ('C18-R2', r2_registry, 20),
@@ -420,4 +486,5 @@ RULES = [
     ('C18-R4', r4_rejected_by_add, 9),
     ('C18-R5', r5_reference_predicates, 2),
     ('C18-R6', r6_blank_predicates, 4),
+    ('C18-R7', r7_check_predicates, 20),
 ]
